@@ -816,6 +816,7 @@ theorem grpLoop_insts (sub : List Entry) (hnd : (deepTagsL sub).Nodup) (hP : ∀
         rw [hbs] at hseg ⊢
         rw [hseg]
         simp only [ok_bind, Nat.zero_add, List.nil_append]
+        rw [if_neg (by have := wireItems_length_ge (x :: fs'); simp only [List.length_cons] at this; omega)]
         rw [List.drop_left']
         · rw [ih gs' (acc ++ [canonItems (x :: fs')]) (c + (wireItems (x :: fs')).length) rest hwf' hgs' hrest]
           rw [← h4]
